@@ -101,8 +101,12 @@ class SyncRef(Oracle):
             return []
         # resume
         t = obs[2]
+        # a failed trial fills a slot of the next rung only because fewer trials survived the rung than the next one has slots?
+        self.last_resume_forced = bool(b["rung"] > 0 and b["wild"] > 0 and self._is_failed_in_prev(b, t))
         if obs[4] != PAUSED:
-            return [("sync:resume-not-paused", f"trial {t} resumed while {obs[4]}")]
+            why = ":rung-has-more-slots-than-survivors" if self.last_resume_forced else ""
+            return [(f"sync:resume-not-paused:{obs[4]}{why}", f"trial {t} resumed while {obs[4]}"
+                     + (f" (the next rung has {len(b['slots'])} slots, {len(b['slots']) - b['wild']} trials survived the previous one)" if why else ""))]
         cand = [s for s in free if s[0] == t]
         if b["rung"] == 0 or not cand:
             if b["rung"] > 0 and b["wild"] > 0 and self._is_failed_in_prev(b, t):
